@@ -198,8 +198,13 @@ def run_case(mido, cfg, acc):
             kwargs['api'] = 'APIK'
         if cfg.get('via_set_backend'):
             if cfg['via_set_backend'] == 'object':
-                b = Backend(name_arg, **kwargs)
-                mido.set_backend(b)
+                b0 = Backend(name_arg, **kwargs)
+                mido.set_backend(b0)
+                if mido.backend is not b0:
+                    acc.violation('set_backend-replaced-the-object/' + cfg['op'],
+                                  'after set_backend(backend_object), '
+                                  'mido.backend is another object', case)
+                    return
             else:
                 mido.set_backend(name_arg, load=cfg['load'])
             b = mido.backend
@@ -369,8 +374,10 @@ def worker(shard):
             # set_backend rebinding: Backend object and module name
             for via in ('object', 'name'):
                 for cfg in grid(0):
-                    if cfg['call_api'] or not cfg['use_environ']:
+                    if cfg['call_api']:
                         continue
+                    if via == 'name' and not cfg['use_environ']:
+                        continue    # set_backend(name) always uses the environment
                     if via == 'name' and cfg['spec'][1]:
                         continue
                     run_case(mido, dict(cfg, via_set_backend=via), acc)
